@@ -328,8 +328,8 @@ def reader_correspondence(ctx, d, pkg, env, stats, quick):
 
 # ERR: the name of the emitted package's own error marker - a terminal like any other for the property
 TOKNAMES = ["ID", "NUM", "KW", "OP", "WS", "EOL", "COMMENT", "STR", "AB", "ERR"]
-PATTERNS = {"ID": ["[a-z]+", "[a-z][a-z0-9_]*", "[a-zA-Z_]+", "[a-z\\x00E0-\\x00FF]+"], "NUM": ["[0-9]+", "[0-9]+(\\.[0-9]+)?", "-?[0-9]+"],
-            "KW": ["if|in|int", "while"], "OP": ["=+", "<=?", "\\+\\+?|-"], "WS": ["[ \\x09]+", " +"], "EOL": ["\\x0A", "\\x0D?\\x0A"],
+PATTERNS = {"ID": ["[a-z]+", "[a-z][a-z0-9_]*", "[a-zA-Z_]+", "[a-z\\x00E0-\\x00FF]+"], "NUM": ["[0-9]+", "[0-9]+(\\.[0-9]+)?", "-?[0-9]+", "[0-9]*"],
+            "KW": ["if|in|int", "while"], "OP": ["=+", "<=?", "\\+\\+?|-"], "WS": ["[ \\x09]+", " +", "[ \\x09]*"], "EOL": ["\\x0A", "\\x0D?\\x0A"],
             "COMMENT": ["#[a-z ]*", "//[a-z]*", "#[^\\x0A]*", "//.*"], "STR": ["'[a-z ]*'", "\\x22[a-z]*\\x22", "\\x22[^\\x22]*\\x22", "'[^']*'", "<.*>"], "ERR": ["!+", "err|[0-9]+"], "AB": ["(ab)*c", "(ab)+", "a(bc)*d", "\\x03B1+", "[\\x03B1\\xFFFD]+", "\\x10FFFF|\\x0080+"]}
 LITERALS = ["if", "else", "=", "==", "(", ")", ";", "+", "in", "\\\\", "'", "ERR"]
 
@@ -484,7 +484,10 @@ def run(ctx):
         tries = 0
         # always among the packages: blanks, tabs, newlines and comments as tokens of their own that are skipped (a blank line is
         # two skipped tokens), and a terminal called like the emitted package's error marker
-        forced = ['grammar lx;\nstart = ID ERR NUM;\nWS = /[ \\x09]/;\nEOL = /\\x0A/;\nCOMMENT = /#[a-z]*/;\nID = /[a-z]+/;\nERR = /!+/;\nNUM = /[0-9]+/;\n']
+        # ... and terminals that match the empty string (the start state is accepting: a character no token starts with is still an error)
+        forced = ['grammar lx;\nstart = ID NUM KW;\nWS = /[ \\x09]*/;\nNUM = /[0-9]*/;\nID = /[a-z]+/;\nKW = /(if)?/;\n',
+                  'grammar lx;\nstart = ID NUM;\nNUM = /[0-9]*/;\nID = /[a-z]+/;\n']
+        forced += ['grammar lx;\nstart = ID ERR NUM;\nWS = /[ \\x09]/;\nEOL = /\\x0A/;\nCOMMENT = /#[a-z]*/;\nID = /[a-z]+/;\nERR = /!+/;\nNUM = /[0-9]+/;\n']
         while made < nspec and tries < nspec * 6:
             tries += 1
             text = forced.pop(0) if forced else gen_spec(rng)
@@ -543,7 +546,7 @@ def run(ctx):
                         if grown:
                             std_texts.append("a " + grown + " " + lx)
                             stats["texts_with_tokens_longer_than_the_buffer"] = stats.get("texts_with_tokens_longer_than_the_buffer", 0) + 1
-            long_run_of_skipped_tokens(ctx, rng, dfa, auto_line, text, bins["std"], stats, made <= (1 if quick else 20))
+            long_run_of_skipped_tokens(ctx, rng, dfa, auto_line, text, bins["std"], stats, "COMMENT = /#[a-z]*/;\nID = /[a-z]+/;\nERR" in text or (not quick and made <= 20))
             for variant, texts in (("small", small_texts), ("std", std_texts)):
                 lines = [hx(t.encode()) for t in texts]
                 try:
